@@ -45,6 +45,12 @@ def tasks(tier):
     # the one cell's values have to reach the slots of every cell
     ts.append(("array forms on a uniform-grid region", "run_included", dict(modname="c02", fname="run_uniform", kwargs={}, oid="C14.O8",
                                                                            why="the resultant of a body force / the total mass on a region built with uniform=True is the sum over all cells of the one evaluated cell's contribution")))
+    # resultants (rho g V, rho V, -p times the area vector) are sums over quadrature points: each point has to carry its own weight, also in
+    # the permuted (cell-point ordered) rules of the quadratic quads / hexahedra and their boundary rules
+    for cn, mn, cfgs in (("GaussLegendre", "felupe.quadrature._gauss_legendre", [dict(order=2, dim=2, permute=True), dict(order=2, dim=3, permute=True), dict(order=3, dim=2, permute=True)]),
+                         ("GaussLegendreBoundary", "felupe.quadrature._gauss_legendre", [dict(order=2, dim=3, permute=True)])):
+        ts.append(("quadrature rule %s" % cn, "run_included", dict(modname="c05", fname="run_scheme", kwargs=dict(modname=mn, clsname=cn, cfgs=cfgs, tier=tier), oid="C14.O9", select_oid="C05.O1",
+                                                                 why="body-force, mass and pressure resultants on distorted quadratic cells are exact only if every quadrature point of the permuted rule carries the weight that belongs to it")))
     return ts
 
 
